@@ -17,7 +17,10 @@ use crate::infrastructure::time::Time;
 use crate::rtps::stateful_reader::RtpsStatefulReader;
 use crate::rtps::stateful_writer::RtpsStatefulWriter;
 use crate::rtps::writer_proxy::RtpsWriterProxy;
-use crate::rtps_messages::overall_structure::{RtpsMessageRead, RtpsSubmessageReadKind};
+use crate::rtps_messages::error::RtpsMessageResult;
+use crate::rtps_messages::overall_structure::{
+    RtpsMessageHeader, RtpsMessageRead, RtpsMessageWrite, RtpsSubmessageReadKind, Submessage, SubmessageHeaderRead, Write,
+};
 use crate::rtps_messages::submessages::gap::GapSubmessage;
 use crate::rtps_messages::submessages::heartbeat::HeartbeatSubmessage;
 use crate::runtime::Clock;
@@ -131,40 +134,291 @@ pub fn proxy(r: &mut RtpsStatefulReader) -> &mut RtpsWriterProxy {
     r.matched_writer_lookup(W_GUID).unwrap()
 }
 
-/// Replica of the per-reader body of `handle_heartbeat_submessage` (communication_methods.rs).
+/// Replica of the per-reader body of `handle_heartbeat_submessage` (communication_methods.rs:605-626):
+/// lookup of the writer proxy, then the statements of `glue_heartbeat_proxy`.
 /// Returns true when the heartbeat was accepted (count fresh).
 pub fn glue_heartbeat(r: &mut RtpsStatefulReader, hb: &HeartbeatSubmessage, src: GuidPrefix, out: &impl WriteMessage) -> bool {
     let writer_guid = Guid::new(src, hb.writer_id());
     let reader_guid = r.guid();
     let mut accepted = false;
     if let Some(writer_proxy) = r.matched_writer_lookup(writer_guid) {
-        if writer_proxy.last_received_heartbeat_count() < hb.count() {
-            writer_proxy.set_last_received_heartbeat_count(hb.count());
-            writer_proxy.missing_changes_update(hb.last_sn());
-            writer_proxy.lost_changes_update(hb.first_sn());
-
-            let must_send_acknacks = !hb.final_flag()
-                || (!hb.liveliness_flag() && writer_proxy.missing_changes().count() > 0);
-            writer_proxy.set_must_send_acknacks(must_send_acknacks);
-
-            writer_proxy.write_message(&reader_guid, out);
-            accepted = true;
-        }
+        accepted = glue_heartbeat_proxy(writer_proxy, &reader_guid, hb, out);
     }
     accepted
 }
 
-/// Replica of the per-reader body of `handle_gap_submessage` (communication_methods.rs).
+/// The statements `handle_heartbeat_submessage` executes on the looked-up writer proxy, in the same
+/// order and with the same expressions (only the receiver names differ: `hb` for
+/// `heartbeat_submessage`, `out` for `self.transport.message_writer.as_ref()`).
+pub fn glue_heartbeat_proxy(writer_proxy: &mut RtpsWriterProxy, reader_guid: &Guid, hb: &HeartbeatSubmessage, out: &impl WriteMessage) -> bool {
+    if writer_proxy.last_received_heartbeat_count() < hb.count() {
+        writer_proxy.set_last_received_heartbeat_count(hb.count());
+        writer_proxy.missing_changes_update(hb.last_sn());
+        writer_proxy.lost_changes_update(hb.first_sn());
+
+        let must_send_acknacks = !hb.final_flag()
+            || (!hb.liveliness_flag() && writer_proxy.missing_changes().count() > 0);
+        writer_proxy.set_must_send_acknacks(must_send_acknacks);
+
+        writer_proxy.write_message(reader_guid, out);
+        true
+    } else {
+        false
+    }
+}
+
+/// Replica of the per-reader body of `handle_gap_submessage` (communication_methods.rs:579-591).
 pub fn glue_gap(r: &mut RtpsStatefulReader, gap: &GapSubmessage, src: GuidPrefix) {
     let writer_guid = Guid::new(src, gap.writer_id());
     if let Some(writer_proxy) = r.matched_writer_lookup(writer_guid) {
-        for seq_num in gap.gap_start()..gap.gap_list().base() {
-            writer_proxy.irrelevant_change_set(seq_num)
-        }
-        for seq_num in gap.gap_list().set() {
-            writer_proxy.irrelevant_change_set(seq_num)
-        }
+        glue_gap_proxy(writer_proxy, gap);
     }
+}
+
+/// The two loops `handle_gap_submessage` executes on the looked-up writer proxy.
+pub fn glue_gap_proxy(writer_proxy: &mut RtpsWriterProxy, gap: &GapSubmessage) {
+    for seq_num in gap.gap_start()..gap.gap_list().base() {
+        writer_proxy.irrelevant_change_set(seq_num)
+    }
+    for seq_num in gap.gap_list().set() {
+        writer_proxy.irrelevant_change_set(seq_num)
+    }
+}
+
+/// A stand-alone writer proxy (W_GUID) in its constructor state, as `add_matched_writer` builds it.
+pub fn new_proxy(reliability: ReliabilityKind) -> RtpsWriterProxy {
+    RtpsWriterProxy::new(W_GUID, &[], &[], ENTITYID_UNKNOWN, reliability)
+}
+
+/// Payload of symbolic length 0..=3 taken from `bytes`, every allocation of concrete size.
+pub fn payload3(bytes: &[u8; 3], len: usize) -> Arc<[u8]> {
+    match len {
+        0 => Arc::from(&bytes[..0]),
+        1 => Arc::from(&bytes[..1]),
+        2 => Arc::from(&bytes[..2]),
+        _ => Arc::from(&bytes[..3]),
+    }
+}
+
+// ---------------------------------------------------------------------------------------------
+// Datagram container stub.
+//
+// `RtpsMessageWrite::from_submessages` builds every datagram in a `Cursor<Vec<u8>>` that grows by
+// `Vec::resize` (a byte-wise loop) at every element write and back-patches each submessage length.
+// Writer/reader objects live in Vec heap buffers whose contents are opaque to CBMC's constant
+// propagation, so all lengths/positions in that container are symbolic and every one of the dozen
+// message construction sites of `write_message_reliable` is explored for every loop unwinding:
+// measured, one DATA+HEARTBEAT datagram does not finish symbolic execution in 570 s, an ACKNACK with
+// a symbolic bitmap runs out of 12 GB. Harnesses that must look at emitted datagrams therefore stub
+// exactly that container (plus the two critical-section symbols, see support_cs.rs):
+//
+//   #[kani::stub(crate::rtps_messages::overall_structure::RtpsMessageWrite::from_submessages,
+//                super::support_rtps::from_submessages_staged)]
+//
+// The replacement stages every submessage in its own fixed-capacity buffer - header and element
+// encoders are the REAL ones (`Submessage::write_submessage_header_into_bytes` /
+// `write_submessage_elements_into_bytes`), octetsToNextHeader is the real element length - appends
+// the staged submessages (byte for byte what the real container concatenates after the 20-byte RTPS
+// header) to a log the harness reads with `staged_sub(i, j)`, and returns a header-only
+// `RtpsMessageWrite` to the caller, which hands it to `WriteMessage::write_message` as usual (the
+// `Sent` writer counts those calls; harnesses assert sent == staged). The real container is
+// exercised by C08 (fam-rtps-msg).
+pub const SUB_CAP: usize = 48;
+pub const MAX_SUBS: usize = 4;
+pub const LOG_CAP: usize = 5;
+/// Fixed-capacity byte sink implementing the crate's `Write`.
+#[derive(Clone, Copy)]
+pub struct Stage<const N: usize> {
+    pub buf: [u8; N],
+    pub pos: usize,
+}
+impl<const N: usize> Stage<N> {
+    pub const fn new() -> Self {
+        Self { buf: [0; N], pos: 0 }
+    }
+}
+impl<const N: usize> Write for Stage<N> {
+    fn write_all(&mut self, b: &[u8]) -> RtpsMessageResult<()> {
+        let end = self.pos + b.len();
+        self.buf[self.pos..end].copy_from_slice(b);
+        self.pos = end;
+        Ok(())
+    }
+}
+/// One staged submessage: the 4 header bytes written by the real header encoder (id, flags,
+/// octetsToNextHeader LE) and the element bytes written by the real element encoder.
+#[derive(Clone, Copy)]
+pub struct Sub {
+    pub hdr: [u8; 4],
+    pub body: Stage<SUB_CAP>,
+}
+impl Sub {
+    pub const fn new() -> Self {
+        Self { hdr: [0; 4], body: Stage::new() }
+    }
+    pub fn id(&self) -> u8 {
+        self.hdr[0]
+    }
+    pub fn flags(&self) -> u8 {
+        self.hdr[1]
+    }
+    /// octetsToNextHeader as written into the submessage header.
+    pub fn octets(&self) -> usize {
+        u16le(&self.hdr, 0 + 2) as usize
+    }
+    /// Number of element bytes actually written.
+    pub fn len(&self) -> usize {
+        self.body.pos
+    }
+    /// Byte at offset `off` counted from the start of the submessage header (wire offsets of 9.4.5).
+    pub fn at(&self, off: usize) -> u8 {
+        self.body.buf[off - 4]
+    }
+    pub fn u16(&self, off: usize) -> u16 {
+        u16le(&self.body.buf, off - 4)
+    }
+    pub fn u32(&self, off: usize) -> u32 {
+        u32le(&self.body.buf, off - 4)
+    }
+    pub fn sn(&self, off: usize) -> i64 {
+        snle(&self.body.buf, off - 4)
+    }
+}
+#[derive(Clone, Copy)]
+pub struct Msg {
+    pub nsub: usize,
+    pub subs: [Sub; MAX_SUBS],
+    pub prefix: GuidPrefix,
+}
+impl Msg {
+    pub const fn new() -> Self {
+        Self { nsub: 0, subs: [Sub::new(); MAX_SUBS], prefix: [0; 12] }
+    }
+}
+pub struct StageLog {
+    pub n: usize,
+    pub msgs: [Msg; LOG_CAP],
+}
+static STAGE_LOG: critical_section::Mutex<RefCell<StageLog>> =
+    critical_section::Mutex::new(RefCell::new(StageLog { n: 0, msgs: [Msg::new(); LOG_CAP] }));
+
+pub fn from_submessages_staged(submessages: &[&(dyn Submessage + Send)], guid_prefix: GuidPrefix) -> RtpsMessageWrite {
+    let header = RtpsMessageHeader::new(
+        crate::rtps::types::PROTOCOLVERSION_2_4,
+        crate::rtps::types::VENDOR_ID_S2E,
+        guid_prefix,
+    );
+    let mut msg = Msg::new();
+    msg.prefix = guid_prefix;
+    assert!(submessages.len() <= MAX_SUBS, "harness: too many submessages for the staging log");
+    let mut j = 0;
+    for sub in submessages {
+        let mut body = Stage::<SUB_CAP>::new();
+        sub.write_submessage_elements_into_bytes(&mut body);
+        let mut hdr = Stage::<4>::new();
+        sub.write_submessage_header_into_bytes(body.pos as u16, &mut hdr);
+        msg.subs[j] = Sub { hdr: hdr.buf, body };
+        j += 1;
+    }
+    msg.nsub = j;
+    critical_section::with(|cs| {
+        let mut l = STAGE_LOG.borrow(cs).borrow_mut();
+        let i = l.n;
+        assert!(i < LOG_CAP, "harness: staged datagram log full");
+        l.msgs[i] = msg;
+        l.n = i + 1;
+    });
+    RtpsMessageWrite::new(&header, &[])
+}
+/// Number of datagrams built so far.
+pub fn staged_count() -> usize {
+    critical_section::with(|cs| STAGE_LOG.borrow(cs).borrow().n)
+}
+/// Number of submessages and RTPS-header guid prefix of the i-th datagram built.
+pub fn staged_meta(i: usize) -> (usize, GuidPrefix) {
+    critical_section::with(|cs| {
+        let l = STAGE_LOG.borrow(cs).borrow();
+        (l.msgs[i].nsub, l.msgs[i].prefix)
+    })
+}
+/// The j-th submessage of the i-th datagram built.
+pub fn staged_sub(i: usize, j: usize) -> Sub {
+    critical_section::with(|cs| STAGE_LOG.borrow(cs).borrow().msgs[i].subs[j])
+}
+/// Forget the datagrams built so far (pre-state construction).
+pub fn staged_reset() {
+    critical_section::with(|cs| STAGE_LOG.borrow(cs).borrow_mut().n = 0);
+}
+/// Counts `WriteMessage::write_message` calls (every staged datagram must also be sent).
+pub struct Sent {
+    pub n: core::cell::Cell<usize>,
+}
+impl Sent {
+    pub fn new() -> Self {
+        Self { n: core::cell::Cell::new(0) }
+    }
+}
+impl WriteMessage for Sent {
+    fn write_message(&self, _buf: &[u8], _locators: &[Locator]) {
+        self.n.set(self.n.get() + 1);
+    }
+}
+
+// ---------------------------------------------------------------------------------------------
+// Wire-format oracle (RTPS 2.4 clause 9.4.5, little-endian as dust-dds always sets flag E):
+// fixed-offset readers for the staged datagram bodies. The real decoders allocate Arc<[u8]> of
+// symbolic size for payloads/parameters when fed bytes from a staged (symbolic) buffer, which made a
+// 4-datagram harness exceed 700 s; reading the few fields an assertion needs at their wire offsets
+// keeps the check on the bytes the real encoders produced. Layout of every submessage: 1 byte id,
+// 1 byte flags, 2 bytes octetsToNextHeader, then the elements in the order of the clause cited.
+pub fn u16le(b: &[u8], o: usize) -> u16 {
+    (b[o] as u16) | ((b[o + 1] as u16) << 8)
+}
+pub fn u32le(b: &[u8], o: usize) -> u32 {
+    (b[o] as u32) | ((b[o + 1] as u32) << 8) | ((b[o + 2] as u32) << 16) | ((b[o + 3] as u32) << 24)
+}
+/// SequenceNumber (9.4.2.5): int32 high, uint32 low.
+pub fn snle(b: &[u8], o: usize) -> i64 {
+    (((u32le(b, o) as i32) as i64) << 32) | (u32le(b, o + 4) as i64)
+}
+/// Submessage sizes that never vary: INFO_DST = 4 + 12 (9.4.5.8), INFO_TS with timestamp = 4 + 8,
+/// with the invalidate flag = 4 + 0 (9.4.5.11), HEARTBEAT = 4 + 28 (9.4.5.7).
+pub const LEN_INFO_DST: usize = 16;
+pub const LEN_HEARTBEAT: usize = 32;
+/// Offsets inside a DATA (9.4.5.3) / DATA_FRAG (9.4.5.4) submessage, from its header:
+/// extraFlags 4, octetsToInlineQos 6, readerId 8, writerId 12, writerSN 16; DATA_FRAG continues with
+/// fragmentStartingNum 24, fragmentsInSubmessage 28, fragmentSize 30, sampleSize 32, inlineQos 36.
+pub const OFF_SN: usize = 16;
+pub const OFF_DATA_QOS: usize = 24;
+pub const OFF_FRAG_NUM: usize = 24;
+pub const OFF_FRAGS_IN_SUB: usize = 28;
+pub const OFF_FRAG_SIZE: usize = 30;
+pub const OFF_SAMPLE_SIZE: usize = 32;
+pub const OFF_FRAG_QOS: usize = 36;
+/// An empty inline-QoS parameter list is the 4-byte sentinel (9.4.2.11).
+pub const LEN_EMPTY_QOS: usize = 4;
+
+/// Offset of the first submessage in an RTPS datagram (fixed 20-byte header, RTPS 9.4.4).
+pub const RTPS_HEADER_LEN: usize = 20;
+
+/// Step over one submessage exactly as the loop in `RtpsMessageRead::try_from` does (real
+/// `SubmessageHeaderRead::try_read_from_bytes`, length test, consume), WITHOUT the dispatch over all
+/// twelve submessage kinds: datagrams live in heap buffers whose bytes are opaque to symbolic
+/// execution, so the full dispatcher explores every decoder at every position (measured: no answer
+/// in 400 s for a 2-submessage datagram). The caller asserts the expected kind id and then calls that
+/// kind's real decoder (`XxxSubmessage::try_from_bytes(&header, body)`), like the dispatcher does.
+pub fn next_sub<'a>(v: &mut &'a [u8]) -> Option<(SubmessageHeaderRead, &'a [u8])> {
+    if v.len() < 4 {
+        return None;
+    }
+    let h = SubmessageHeaderRead::try_read_from_bytes(v).ok()?;
+    let len = h.submessage_length() as usize;
+    if v.len() < len {
+        return None;
+    }
+    let body: &'a [u8] = *v;
+    *v = &body[len..];
+    Some((h, body))
 }
 
 /// Deliver one captured datagram to a reader exactly as `DcpsDomainParticipant::handle_data` does:
